@@ -33,6 +33,7 @@ import Distill.Model.Style
 import Distill.Model.Candidates
 import Distill.Model.LinkScore
 import Distill.Model.PageInfo
+import Distill.Model.Scan
 namespace Distill.Slices
 open Distill Distill.Proto
 
@@ -474,6 +475,20 @@ def pagegroupsSlice : P String := do
   let m := Pg.runOps ops
   pure (" ".intercalate (m.groups.map (fun g => s!"<{g.deltaSign}:{",".intercalate (g.list.map pinfoStr)}>")))
 
+/-- `numberscan tree n (id num url)* m id*` → the groups of adjacent numbers the DOM scan leaves
+(page infos of the anchors and the text nodes without words are given by id) -/
+def numberscanSlice : P String := do
+  let t ← node
+  let n ← nat
+  let infos ← many n (do let i ← nat; let num ← int; let u ← str; pure (i, num, u))
+  let m ← nat
+  let blanks ← many m nat
+  let A : Scan.A := { pageInfo := fun i => (infos.find? (fun x => x.1 == i)).map (fun x => (x.2.1, x.2.2)),
+                      noWords := fun i => blanks.contains i }
+  match Scan.scanGroups A t with
+  | none => pure "fuel-exhausted"
+  | some gs => pure (" ".intercalate (gs.map (fun g => s!"<{g.deltaSign}:{",".intercalate (g.list.map pinfoStr)}>")))
+
 def bytesOf (s : String) : List UInt8 := s.toUTF8.toList
 
 /-- `pathpaging strURL pStart segStart prefix suffix origin n url*` → per URL `1`/`0`/`P`
@@ -741,6 +756,7 @@ def dispatch (slice : String) : Option (P String) :=
   | "pagenum" => some pagenumSlice
   | "prevnext" => some prevnextSlice
   | "pagegroups" => some pagegroupsSlice
+  | "numberscan" => some numberscanSlice
   | "pathpaging" => some pathpagingSlice
   | "filters" => some filtersSlice
   | _ => none
